@@ -1,5 +1,6 @@
 import XmpModel.MixLinear
 import XmpModel.Gen.MixKernelConsts
+import XmpModel.Gen.MixKernelVoiceMembers
 /-!
 # Bit-exact model of the mix kernels of src/mix_all.c (C14)
 
@@ -300,6 +301,91 @@ def Call.contrib (c : Call) : Buf := zeros c.off ++ contribAcc c.spec c.voice c.
 
 /-- a tick consisting of kernel calls only: zeroed buffer, calls in order -/
 def mixCalls (n : Nat) (cs : List Call) : Buf := cs.foldl (fun b c => c.exec b) (zeros n)
+
+/-! ## A freed voice: `libxmp_virt_resetvoice` / `libxmp_virt_resetchannel` / `libxmp_virt_reset` (src/virtual.c)
+
+All three clear the whole `struct mixer_voice` (`memset`), keep the `paula` pointer (whose state is
+re-initialised by `libxmp_paula_init`) and set `chn = root = FREE`.  The member list is generated from
+the preprocessed src/mixer.h (`Gen/MixKernelVoiceMembers.lean`), so a member added to the struct is part
+of the model — and of the tie, which compares every member of every free voice of the real player with
+`resetValue` — without anybody remembering it. -/
+
+/-- `FREE` (virtual.c) -/
+def voiceFree : Int := -1
+
+/-- value of a member of `struct mixer_voice` in a freed voice; `none`: kept (the `paula` pointer) -/
+def resetValue (member : String) : Option Int :=
+  if member = "paula" then none else if member = "chn" ∨ member = "root" then some voiceFree else some 0
+
+/-- the image of a freed voice, member by member -/
+def voiceReset : List (String × Option Int) :=
+  Xmp.Gen.MixKernelVoiceMembers.voiceMembers.map fun m => (m.1, resetValue m.1)
+
+/-- what `libxmp_paula_init` leaves in `*vi->paula` (pseudo-members of the tie): `global_output_level`,
+`active_bleps`, and whether `remainder == fdiv` -/
+def paulaResetValue (member : String) : Option Int :=
+  if member = "paula.global_output_level" ∨ member = "paula.active_bleps" then some 0
+  else if member = "paula.remainder_is_fdiv" then some 1 else none
+
+/-- the members of `*vi` a kernel of mix_all.c / mix_paula.c reads (`VAR_*`, `PAULA_INPUT`) -/
+def kernelReads : List String :=
+  ["pos", "sptr", "end", "old_vl", "old_vr", "paula",
+   "filter.r1", "filter.r2", "filter.l1", "filter.l2", "filter.a0", "filter.b0", "filter.b1"]
+
+/-- the per-voice memory the voice loop of `libxmp_mixer_softmixer` reads besides (ramp, anticlick residue, flags,
+queued sample) -/
+def voiceLoopReads : List String := ["old_vl", "old_vr", "sleft", "sright", "flags", "queued.smp", "vol", "pan", "period"]
+
+/-! ## A voice slot over time: reuse by another channel -/
+
+/-- the kernel-visible memory of a voice slot that survives from one call to the next -/
+structure SlotMem where
+  /-- `vi->filter.l1/l2/r1/r2` (the coefficients are set by the owner's channel before every tick) -/
+  l1 : Int := 0
+  l2 : Int := 0
+  r1 : Int := 0
+  r2 : Int := 0
+  oldVl : Int := 0
+  oldVr : Int := 0
+  deriving Repr, DecidableEq
+
+/-- what the owner channel supplies for one kernel call: sample side, coefficients, scalar arguments and the
+ramp memory the voice loop stores afterwards -/
+structure OwnerCall where
+  spec : KSpec
+  smp : Int → Int
+  pos : Int
+  frac : Int
+  a0 : Int
+  b0 : Int
+  b1 : Int
+  args : KArgs
+  /-- `vi->old_vl`, `vi->old_vr` as the voice loop leaves them after the call -/
+  nextOldVl : Int
+  nextOldVr : Int
+
+inductive SlotEv where
+  /-- `libxmp_virt_resetvoice` & co.: the slot is freed -/
+  | reset
+  /-- a kernel call for the channel that owns the slot -/
+  | call (c : OwnerCall)
+
+def OwnerCall.voice (c : OwnerCall) (m : SlotMem) : KVoice :=
+  { smp := c.smp, pos := c.pos, frac := c.frac, oldVl := m.oldVl, oldVr := m.oldVr,
+    flt := { l1 := m.l1, l2 := m.l2, r1 := m.r1, r2 := m.r2, a0 := c.a0, b0 := c.b0, b1 := c.b1 } }
+
+/-- one event: the words added and the slot memory afterwards -/
+def slotStep (m : SlotMem) : SlotEv → List Int × SlotMem
+  | .reset => ([], {})
+  | .call c =>
+    let v := c.voice m
+    let f := fltAfter c.spec v c.args
+    (contrib c.spec v c.args, { l1 := f.l1, l2 := f.l2, r1 := f.r1, r2 := f.r2, oldVl := c.nextOldVl, oldVr := c.nextOldVr })
+
+/-- the contributions of a sequence of events on one slot -/
+def slotRun : SlotMem → List SlotEv → List (List Int)
+  | _, [] => []
+  | m, e :: es => let r := slotStep m e; r.1 :: slotRun r.2 es
 
 /-! ## Bounds -/
 
